@@ -304,6 +304,7 @@ def run(m, tier):
     r9.title = "the directive-prefix patterns (and every other pattern) anchor all alternatives alike: a comment that merely mentions a sentinel is not a directive (shared with C08.R7)"
     results.append(r9)
     results.append(rr.rule_inline_table(m, "C11.R10"))
+    results.append(r11_strict_order(m, blocks))
     expl = ("Decides structural clauses of C11: per call site of the block engine the class list tried at every position contains the "
             "comment, include, preprocessor (and, exactly under process_directives, directive) classes; comments are collected before "
             "each opening statement and around every program unit, with both collectors in every round; every reader item and every "
@@ -311,3 +312,39 @@ def run(m, tier):
             "reverse; the ignore filter sits on the single exit of the item loop; Directive and Comment share their code; a comment "
             "ends character context; the item queue keeps comments behind their statement; the inline flag is computed at every trailing-comment site and never set for whole-line comments. Does NOT decide exact placement for every position.")
     return results, expl
+
+
+def r11_strict_order(m, blocks, rid="C11.R11"):
+    """BlockBase.match appends Comment / Include / Directive / cpp after the listed classes.  With strict_order=True the class index is
+    never reset, so once one of those has matched at this level none of the listed classes is tried again: the flag is only safe where
+    every listed class is itself a part (a block without END class) that takes the comments of its own stretch."""
+    r = RuleResult(rid, "a block that enforces the order of its parts (strict_order=True) lists only container parts that absorb their own "
+                        "comments/includes/directives: otherwise a comment between two statements would end the matching of the listed classes")
+    r.floor = 1
+    # a "part": a block without END class, which goes on for as long as one of its classes (comments included) matches
+    containers = {i.concrete for i in blocks if i.args and i.args.get("endcls") is not None and i.args["endcls"].kind == "none"}
+    for inst in blocks:
+        if not inst.args or inst.flag("strict_order") is not True:
+            continue
+        r.instances += 1
+        subs = inst.args.get("subclasses")
+        if subs is None or subs.kind not in ("list", "tuple"):
+            r.undet("%s: the class list of a strict_order block is not a literal list" % inst.tag)
+            continue
+        bad = []
+        for v in subs.v:
+            if v.kind != "class":
+                bad.append(repr(v))
+                continue
+            # the class, or (for a rule with alternatives only) every alternative, must be a container
+            k = v.v
+            if k in containers:
+                continue
+            bad.append(k.split(":")[1])
+        r.ob(not bad, "%s: strict_order over %s, all containers" % (inst.tag, subs.short()))
+        if bad:
+            r.fail("%s|strict-order|%s" % (inst.tag, bad[0]), "%s.match enforces the order of %s, but %s is not a comment-absorbing container: "
+                   "after a comment (or include/directive/cpp line) has matched at this level no further %s can match, so valid source "
+                   "is rejected once its comments are kept and parses differently from the comment-free text"
+                   % (inst.tag, subs.short(), bad[0], bad[0]), m.loc(inst.func, inst.call))
+    return r
